@@ -17,7 +17,14 @@ import (
 	"golang.org/x/tools/go/ssa/ssautil"
 )
 
-const repoRoot = "/repo"
+// repoRoot: the tree that is verified. /repo for every registered check; GOVC_REPO points the developer tools
+// (seeded-change selftest) at a scratch clone so that they can run beside other work.
+var repoRoot = func() string {
+	if d := os.Getenv("GOVC_REPO"); d != "" {
+		return d
+	}
+	return "/repo"
+}()
 const contractFile = "zz_verif_contracts.go"
 
 type Loaded struct {
